@@ -164,7 +164,163 @@ def _stop_engine(RE):
         pass
 
 
+# ------------------------------------------------------------------------------------------
+# (un)subscribe from inside a document callback, while a document of that very kind is being dispatched
+
+RE_ACTIONS = ["resub", "sub_then_unsub", "unsub", "sub"]
+
+
+def _check_reentrant(spec) -> Result:
+    """A permanent 'driver' callback, at its first ``trig`` document, changes the subscriptions of a target callable.
+
+    Oracle: every document emitted strictly after the dispatch in which the change was made reaches the target iff
+    the target then holds a live token covering the document kind; documents before it follow the initial
+    subscription; the driver (a different subscription) receives every ``trig`` document of every run.  The document
+    being dispatched when the change is made is not judged for the target (delivery order within one dispatch is
+    not part of the property).
+    """
+    import logging
+    import warnings
+
+    from bluesky.run_engine import RunEngine
+    from bluesky.utils import DuringTask, Msg
+
+    logging.getLogger("bluesky").setLevel(logging.CRITICAL + 1)
+    sys.setswitchinterval(0.0005)
+    res = Result()
+    action, n1, n2, trig = spec["action"], spec["n1"], spec["n2"], spec["trig"]
+    RE = RunEngine({}, context_managers=[], during_task=DuringTask())
+    try:
+        log = []  # (callable, kind) in delivery order; ("#", kind) marks the driver's deliveries
+        pool = _Pool(log)
+        det = _Det()
+        state = {"tok": None, "done": False, "mark": None, "err": None}
+
+        def driver(name, doc):
+            log.append(("#", name))
+            if state["done"]:
+                return
+            state["done"] = True
+            try:
+                if action == "resub":
+                    RE.unsubscribe(state["tok"])
+                    state["tok"] = RE.subscribe(pool.get(spec["f"]), n2)
+                elif action == "sub_then_unsub":
+                    old = state["tok"]
+                    state["tok"] = RE.subscribe(pool.get(spec["f"]), n2)
+                    RE.unsubscribe(old)
+                elif action == "unsub":
+                    RE.unsubscribe(state["tok"])
+                    state["tok"] = None
+                else:
+                    state["tok"] = RE.subscribe(pool.get(spec["f"]), n2)
+            except Exception as e:  # noqa: BLE001
+                state["err"] = e
+            state["mark"] = len(log)
+
+        if spec["order"] == "driver_first":
+            dtok = RE.subscribe(driver, trig)
+        if action != "sub":
+            state["tok"] = RE.subscribe(pool.get(spec["f"]), n1)
+        if spec["order"] != "driver_first":
+            dtok = RE.subscribe(driver, trig)
+
+        emitted = []  # (kind, log index just before the emitting message)
+
+        def one_run():
+            emitted.append(("start", len(log)))
+            yield Msg("open_run")
+            for i in range(2):
+                yield Msg("create", name="primary")
+                yield Msg("read", det)
+                if i == 0:
+                    emitted.append(("descriptor", len(log)))
+                emitted.append(("event", len(log)))
+                yield Msg("save")
+            emitted.append(("stop", len(log)))
+            yield Msg("close_run")
+
+        def two_runs():
+            yield from one_run()
+            yield from one_run()
+
+        with warnings.catch_warnings():
+            warnings.simplefilter("ignore")
+            try:
+                RE(two_runs())
+                RE(one_run())
+            except Exception as e:  # noqa: BLE001
+                res.fail("call_raised", f"RE(...) raised {type(e).__name__}: {e}")
+                return res
+        if RE.state != "idle":
+            raise HarnessError(f"RunEngine left in state {RE.state}")
+        if state["err"] is not None:
+            res.fail("subscribe_in_callback_raised", f"{action} inside the driver callback raised {state['err']!r}")
+            return res
+        if state["mark"] is None:
+            raise HarnessError("driver callback was never called")
+        c = POOL[spec["f"] % len(POOL)]
+        before = None if action == "sub" else n1
+        after = None if action == "unsub" else n2
+        # deliveries per emitted document: descriptor and first event come from one 'save'
+        bounds = [i for _, i in emitted] + [len(log)]
+        judged_after = 0
+        seen_trigger = False
+        for ei, (kind, start) in enumerate(emitted):
+            # the descriptor and the first event are both emitted by the 'save' that follows their common marker
+            end = bounds[ei + 2] if kind == "descriptor" else bounds[ei + 1]
+            seg = [e for e in log[start:end] if e[1] == kind]
+            got_driver = ("#", kind) in seg
+            if kind == trig and not got_driver:
+                res.fail("silenced", f"driver subscribed to {trig!r} did not receive the {kind!r} document emitted at log index {start}", callable="driver")
+            is_trigger_doc = kind == trig and not seen_trigger
+            if is_trigger_doc:
+                seen_trigger = True
+                continue
+            live = after if seen_trigger else before
+            exp = live is not None and _covers(live, kind)
+            got = (c, kind) in seg
+            if seen_trigger:
+                judged_after += 1
+            if exp and not got:
+                res.fail(
+                    "silenced",
+                    f"{c!r} holds a live subscription ({live!r}, made {'inside a ' + trig + ' callback' if seen_trigger else 'before the call'}) "
+                    f"but did not receive the {kind!r} document emitted at log index {start}",
+                    callable=c,
+                    from_inside_callback=seen_trigger,
+                )
+            elif got and not exp:
+                res.fail(
+                    "spurious",
+                    f"{c!r} received a {kind!r} document at log index {start} with no live subscription covering it "
+                    f"(live: {live!r}; changed inside a {trig!r} callback: {seen_trigger})",
+                    callable=c,
+                    from_inside_callback=seen_trigger,
+                )
+        RE.unsubscribe(dtok)
+        res.nontrivial = judged_after > 0 and action != "sub"
+        res.klass = f"reentrant:{action}"
+        res.classes.append("reentrant_in_callback")
+        res.classes.append(f"trig={trig}")
+    finally:
+        _stop_engine(RE)
+    return res
+
+
+def _reentrant_cases(quick):
+    fs = [0, 2] if quick else [0, 2, 4]
+    for f, n1, n2, trig, order, action in itertools.product(fs, NAMES, NAMES, KINDS, ["driver_first", "target_first"], RE_ACTIONS):
+        if action == "unsub" and n2 != "all":
+            continue  # n2 unused
+        if action == "sub" and n1 != "all":
+            continue  # n1 unused
+        yield {"reentrant": {"f": f, "n1": n1, "n2": n2, "trig": trig, "order": order, "action": action}}
+
+
 def check_case(case) -> Result:
+    if "reentrant" in case:
+        return _check_reentrant(case["reentrant"])
     import logging
     import warnings
 
@@ -454,6 +610,15 @@ def run(ctx):
     ctx.extra["enumerated_part"] = (
         "one callable (function / bound method / equal pair / same object) subscribed twice with every pair of names in "
         "the scope pairs perm+perm, perm+per-call, perm+in-plan, per-call+in-plan, one removal, then runs"
+    )
+    rcases = list(_reentrant_cases(ctx.tier == "quick"))
+    ctx.sweep(rcases, check_case)
+    ctx.extra["enumerated_reentrant_histories"] = len(rcases)
+    ctx.extra["reentrant_part"] = (
+        "a permanent driver callback that, while its first start/descriptor/event/stop document is being dispatched, "
+        "re-subscribes (unsubscribe+subscribe, or subscribe+unsubscribe), unsubscribes or subscribes a target callable "
+        "(plain function / bound method / equal callable object) for every pair of names and both registration orders; "
+        "three runs in two calls follow"
     )
     ctx.hyp(_strategy, check_case, max_examples=ctx.pick(2000, 40000))
 
